@@ -13,7 +13,7 @@ from harness import atoms as AT
 THEOREMS = {
     'RsomeV.Props.C11': ['RsomeV.C11.defsol_equiv', 'RsomeV.C11.defsol_cost', 'RsomeV.C11.ecos_equiv', 'RsomeV.C11.ecos_cost', 'RsomeV.C11.ecos_exp_membership',
                          'RsomeV.C11.ortools_equiv', 'RsomeV.C11.ortools_cost', 'RsomeV.C11.gurobi_equiv', 'RsomeV.C11.gurobi_cost', 'RsomeV.C11.status_honest',
-                         'RsomeV.C11.ortools_drops_infeasible_row', 'RsomeV.C11.gurobi_free_head'],
+                         'RsomeV.C11.ortools_keeps_infeasible_row', 'RsomeV.C11.gurobi_free_head'],
 }
 RULE = ("random deterministic LP / MILP (binaries and integers with user bounds, also tighter than [0,1]) / SOCP / exp-cone models "
         "solved through default (SciPy/HiGHS), OR-Tools, ECOS and Gurobi as far as each supports the cone types; plus infeasible and "
@@ -84,8 +84,8 @@ def one_model(ctx, d, cls, integer, variant):
                 m, x = DM.build(d)
                 if variant == 'infeasible':
                     m.st(x[0] >= 50.0, x[0] <= -50.0 if False else x[0] * 1.0 <= -50.0)
-                if variant == 'unbounded':
-                    pass
+                if variant == 'infeasible-empty-row':
+                    m.st(0 * x[0] <= -1.0)          # a row without any stored coefficient that cannot hold
                 f = m.do_math()
                 if name == 'ecos' and not C.ecos_safe(f):
                     ctx.count('skipped:ecos-unsafe'); continue
@@ -114,7 +114,7 @@ def one_model(ctx, d, cls, integer, variant):
     if len(results) >= 2:
         ctx.nontriv(case)
         vals = {k: v[0] for k, v in results.items()}
-        if variant == 'infeasible':
+        if variant.startswith('infeasible'):
             for k, v in vals.items():
                 if v is not None:
                     ctx.hit('solution-reported-for-infeasible-model:' + k, {"values": vals}, case)
@@ -144,7 +144,7 @@ def run(ctx):
         names = [a['name'] for a in d['atoms']] + ([d['obj']['name']] if d['obj']['kind'] == 'atom' else [])
         cones = {AT.ATOMS[nm][5] for nm in names}
         cls2 = 'exp' if 'exp' in cones else ('soc' if 'soc' in cones else 'lp')
-        variant = str(r.choice(['feasible', 'feasible', 'feasible', 'infeasible']))
+        variant = str(r.choice(['feasible', 'feasible', 'feasible', 'infeasible', 'infeasible-empty-row'], p=[0.25, 0.25, 0.25, 0.15, 0.1]))
         one_model(ctx, d, cls2, integer, variant)
 
 
